@@ -63,4 +63,60 @@ Proof.
   all: try (destruct I4 as [-> I4]; simpl; auto; fail).
   all: try (destruct n; simpl in *; rewrite I4; simpl; auto; congruence).
   all: try (rewrite I4; simpl; auto; congruence).
-Admitted.
+  all: intro E; rewrite E in I4; discriminate.
+Qed.
+
+(* ---------- teardown monitor ---------- *)
+Definition late (p : pc) : bool :=
+  match p with
+  | PInitBody | PC1a | PC1b | PStepBody | PInc | PAfter | PC2a | PC2b | PC2c | PC2d | PFinal | PDone | PExited => true
+  | _ => false
+  end.
+
+Definition InvTd (c : config) : Prop :=
+  let '(mk p r s t n w tr) := c in
+  match tdm tr with
+  | None => t = false
+  | Some k => t = true /\ k <= 1 /\ (k = 1 -> late p = true)
+  end.
+
+Lemma invtd_init : InvTd init.
+Proof. reflexivity. Qed.
+
+Lemma invtd_step c m c' : InvTd c -> step c m = Some c' -> InvTd c'.
+Proof.
+  intros I H. step_cases c m H;
+  destruct (tdm tr) as [[|[|k]]|]; simpl in *;
+  try (destruct I as (I1 & I2 & I3));
+  repeat split; intros; subst; simpl in *;
+  try discriminate; try congruence; auto; try lia;
+  try (specialize (I3 eq_refl); discriminate).
+Qed.
+
+(* ---------- reset / reboot monitor ---------- *)
+Definition inep (p : pc) : bool :=
+  match p with
+  | PInitBody | PC1a | PC1b | PC1c | PStep | PStepBody | PInc => true
+  | _ => false
+  end.
+
+Definition InvPend (c : config) : Prop :=
+  let '(mk p r s t n w tr) := c in
+  match pend tr with
+  | None => True
+  | Some k => k <= 1 /\ (p = PStep -> k = 0) /\ (inep p = true -> s = true)
+  end.
+
+Lemma invpend_init : InvPend init.
+Proof. exact I. Qed.
+
+Lemma invpend_step c m c' : InvPend c -> step c m = Some c' -> InvPend c'.
+Proof.
+  intros I H. step_cases c m H;
+  destruct (pend tr) as [[|[|k]]|]; simpl in *;
+  try (destruct I as (I1 & I2 & I3));
+  repeat split; intros; subst; simpl in *;
+  try discriminate; try congruence; auto; try lia;
+  try (specialize (I2 eq_refl); lia);
+  try (specialize (I3 eq_refl); congruence).
+Qed.
